@@ -126,11 +126,14 @@ def run_case(desc):
                     target = stackscope.StackSlice()
                 mods = sorted(ids.setdefault(n, len(ids)) for n in sys.modules)
                 before = _hidden(ids)
+                ib = interp_state()
                 stackscope.extract(target, with_contexts=wc, recurse_child_tasks=rc)
+                ia = interp_state()
                 if what != "running":
                     target.close()
                 after = _hidden(ids)
-                steps.append({"mods": mods, "nmods": len(sys.modules), "wc": wc, "rc": rc, "before": before, "after": after})
+                steps.append({"mods": mods, "nmods": len(sys.modules), "wc": wc, "rc": rc, "before": before, "after": after,
+                              "interp_changed": {k: [ib.get(k), ia.get(k)] for k in ia if ib.get(k) != ia.get(k)}})
     finally:
         for n in added:
             sys.modules.pop(n, None)
@@ -162,6 +165,8 @@ def direct_oracle(desc, obs):
     for s in obs["steps"]:
         if s["after"]["opts"] is not None:
             return "options still set after extract() returned: %r" % (s["after"]["opts"],)
+        if s.get("interp_changed"):
+            return "an extraction changed interpreter-global state: %r" % (s["interp_changed"],)
         if s["after"]["reg"] != s["before"]["reg"]:
             return "an extraction changed a hook registry (%d -> %d)" % (s["before"]["reg"], s["after"]["reg"])
     return None
@@ -206,9 +211,77 @@ def asyncgen_leg():
     return []
 
 
+def interp_state():
+    """process-global interpreter settings an observer has no business changing"""
+    import gc
+    import signal
+    import sys
+    import threading
+    import warnings
+    st = {"gc.isenabled": gc.isenabled(), "gc.threshold": list(gc.get_threshold()), "gc.debug": gc.get_debug(),
+          "gc.callbacks": len(gc.callbacks),
+          "sys.trace": repr(sys.gettrace()), "sys.profile": repr(sys.getprofile()),
+          "threading.trace": repr(getattr(threading, "_trace_hook", None)), "threading.profile": repr(getattr(threading, "_profile_hook", None)),
+          "switchinterval": sys.getswitchinterval(), "recursionlimit": sys.getrecursionlimit(),
+          "asyncgen_hooks": repr(tuple(sys.get_asyncgen_hooks())),
+          "coroutine_origin_tracking_depth": sys.get_coroutine_origin_tracking_depth(),
+          "excepthook": repr(sys.excepthook), "unraisablehook": repr(sys.unraisablehook),
+          "threading.excepthook": repr(threading.excepthook),
+          "warnings.filters": len(warnings.filters), "warnings.showwarning": repr(warnings.showwarning)}
+    try:
+        st["SIGINT"] = repr(signal.getsignal(signal.SIGINT))
+    except Exception:
+        pass
+    return st
+
+
+def interp_leg(tier, seed):
+    """the interpreter-global settings are the same after an extraction as before it -- also when the
+    frame snapshot had to be retried (another thread moved the frame: the forced-retry schedules of the
+    C07 harness are reused here) and when the analysis failed in a contained way"""
+    import gc
+    import random
+    import warnings
+    from . import c07
+    bad = []
+    n = 0
+    rng = random.Random(seed * 13 + 6)
+    descs = [d for d in c07.snap_inputs(tier, rng)]
+    retrying = [d for d in descs if any(p in ("P1", "P1b", "P2", "P3") for _a, p, _i, _m in d["sched"])]
+    rng.shuffle(retrying)
+    for gc_on in (True, False):
+        for d in retrying[: (40 if tier == "quick" else 400)]:
+            was = gc.isenabled()
+            (gc.enable if gc_on else gc.disable)()
+            try:
+                before = interp_state()
+                with warnings.catch_warnings():
+                    warnings.simplefilter("ignore")
+                    try:
+                        obs = c07.run_snap(d)
+                    except BaseException as ex:
+                        obs = {"error": repr(ex)}
+                after = interp_state()
+            finally:
+                (gc.enable if was else gc.disable)()
+            n += 1
+            if before != after:
+                diff = {k: [before.get(k), after.get(k)] for k in after if before.get(k) != after.get(k)}
+                bad.append({"what": "a frame snapshot (inspect_frame under a forced interleaving, retries=%s) changed "
+                                    "interpreter-global state: %r" % (obs.get("retries") if isinstance(obs, dict) else "?", diff),
+                            "input": dict(d, leg="interp_state", gc_enabled=gc_on)})
+                if len(bad) >= 5:
+                    return bad, n
+    return bad, n
+
+
 def extra_legs(tier, seed):
     from . import progs
     res = progs.leg_purity(tier, seed)
     res.setdefault("violations", []).extend(asyncgen_leg())
     res["evaluations"] = res.get("evaluations", 0) + 1
+    bad, n = interp_leg(tier, seed)
+    res["violations"].extend(bad)
+    res["evaluations"] += n
+    res.setdefault("info", {})["interp_state_forced_retry_snapshots"] = n
     return res
